@@ -6,7 +6,7 @@ case: ( trigger roller pre a0 ops )   -- see harness/src/rolling_c05.rs
            the MODEL is given the oracle trigger [2, 1, script] with the decisions predicted by
            `time_script` from the trigger's documented schedule (the schedule itself is C16's subject)
   roller : [0] | [1, base, count, gz]
-  pre    : [0] | [1, bytes]
+  pre    : [0] | [1, bytes] | [2, bytes] the log path is a symbolic link to a file holding the bytes
   roller : [1, base, count, gz, shape, bg]  shape 3 = archives in a directory that is a symbolic link to ANOTHER
            file system (rename refuses with EXDEV: move_file's copy+delete fall-back, compress across mounts);
            shape 0/1/2 = index in file name / in directory and file name /
@@ -120,6 +120,8 @@ def effective_ops(ops):
 def flatten_for_model(case, impl):
     trig, roller, pre, a0, ops = case
     ops = effective_ops(ops)
+    if pre[0] == 2:
+        pre = [1, pre[1]]              # a symlinked log path: for the model just a pre-existing file
     if trig[0] == 3:
         trig = [2, 1, time_script(case)]
     out = []
@@ -171,7 +173,7 @@ def model_lines(ctx, cases, lines, impl_lines):
     vc = ctx["vc"]
     out = []
     for c, line, il in zip(cases, lines, impl_lines):
-        if c[0][0] == 3 or any(o[0] in (2, 3, 4, 5, 6, 8, 9, 10, 11) for o in c[4]):
+        if c[0][0] == 3 or c[2][0] == 2 or any(o[0] in (2, 3, 4, 5, 6, 8, 9, 10, 11) for o in c[4]):
             try:
                 iv = vc.parse(il)
             except Exception:
@@ -221,7 +223,7 @@ def compare(case, impl, model):
     hot = any(o[0] == 4 for o in ops)      # overlapping instances: each LogWriter.len is legitimately stale
     bg = bg_of(roller)
     # stream bookkeeping for the C05 oracle
-    stream = [bytes(pre[1])] if (a0 and pre[0] == 1) else []
+    stream = [bytes(pre[1])] if (a0 and pre[0] in (1, 2)) else []
     stream_ok = True          # False once a truncating restart discarded data
     rolls_total = 0
     life_rolls = 0            # C17: rotation requests since the last build
@@ -514,7 +516,8 @@ def describe(case):
                         len(rec_of(o[1])), len(o[1]), "encoder" if o[3] == 1 else "roller", len(o[2])))
         return "burst %r" % ([[len(rec_of(r_)) for r_ in t_] for t_ in o[1]],)
     return {"trigger": t, "roller": r,
-            "pre_existing_bytes": (len(pre[1]) if pre[0] == 1 else None),
+            "pre_existing_bytes": (len(pre[1]) if pre[0] in (1, 2) else None),
+            "log_path_is_a_symlink": pre[0] == 2,
             "first_build_append": bool(a0), "ops": [opd(o) for o in ops]}
 
 
